@@ -1,0 +1,18 @@
+//go:build verif
+
+// Contracts for package markarray, checked by /verif/engine (gvc).  This file
+// contains comments only; it is compiled only with the "verif" build tag.
+package markarray
+
+// Read: total on arbitrary bytes, at most numMarks records, reader faults are
+// passed on.
+//@ func Read(p *parser.Parser, pos int64, numMarks int) (res []Record, err error)   props: C02 C18
+//@   requires parser.inv(p) && pos >= 0 && pos <= 4611686018427453439 && numMarks >= 0
+//@   ensures err == nil ==> parser.inv(p) && fresh(res) && len(res) <= numMarks && len(res) <= 65535
+//@   ensures p.r == old(p.r) && faults(p.r) >= old(faults(p.r)) && (faults(p.r) > old(faults(p.r)) ==> err != nil)
+//@   modifies p.*, allelems(byte), rpos(p.r), faults(p.r)
+//@   loop 0
+//@     invariant parser.inv(p) && p.r == old(p.r) && faults(p.r) == old(faults(p.r)) && fresh(res) && fresh(offsets) && len(res) == markCount && len(offsets) == markCount && 0 <= i && i <= markCount && markCount <= numMarks
+//@     decreases markCount - i
+//@   loop 1
+//@     invariant parser.inv(p) && p.r == old(p.r) && faults(p.r) == old(faults(p.r)) && fresh(res) && fresh(offsets) && len(res) == markCount && len(offsets) == markCount && markCount <= numMarks
